@@ -1,8 +1,8 @@
 package an
 
 import (
-	"go/types"
 	"go/token"
+	"go/types"
 	"regexp"
 	"strings"
 
